@@ -19,6 +19,7 @@ import vf
 MC_CFG = """SPECIFICATION Spec
 CONSTANTS
   Files = {%(files)s}
+  DP = "d"
   Pars = {%(pars)s}
   MaxCancels = %(cancels)d
   SampleSize = %(sample)d
@@ -30,6 +31,7 @@ INVARIANTS TypeOK SemInv NoFalseCycle CycleIff OkIff FaultFails OkClosed PanicSu
 TRACE_CFG = """SPECIFICATION TraceSpec
 CONSTANTS
   Files = {%(files)s}
+  DP = "d"
   MaxCancels = 1
   Configs = {}
 INVARIANTS TypeOK SemInv NoFalseCycle CycleIff OkIff FaultFails OkClosed PanicSurfaces AllowedOutcome
@@ -167,9 +169,11 @@ def classify_run(verdict, spec, case, res):
     """Outcome checks of one real run against the configuration's allowed outcomes."""
     ok = True
     allowed = set(case["allowed"])
+    if spec.get("collide"):
+        allowed = ({"cycle"} if case["hasCycle"] else set()) | {"dup"}
     if spec.get("cancel", 0) > 0:
         allowed.add("ctx")
-    small = {k: spec[k] for k in ("imports", "req", "plan", "par", "seed", "cancel", "public", "shared", "reporter") if k in spec}
+    small = {k: spec[k] for k in ("imports", "req", "plan", "par", "seed", "cancel", "public", "shared", "reporter", "ovr", "collide") if k in spec}
     cls = res["class"]
     if res.get("hung"):
         verdict.disagree("hang", small, "Compile did not return within the watchdog; stacks:\n" + res.get("stacks", "")[:3000])
@@ -200,7 +204,7 @@ def mk_runs(cases, seeds, start_id=1, only=None, **extra):
             continue
         for s in seeds:
             r = {"id": rid, "case": ci, "imports": c["imports"], "req": c["req"], "plan": c["plan"], "par": c["par"],
-                 "seed": s, "trace": True}
+                 "ovr": c.get("ovr", False), "seed": s, "trace": True}
             r.update(extra)
             runs.append(r)
             rid += 1
@@ -217,27 +221,33 @@ def seeds_for(n):
 def families(pid, tier):
     F2 = ("a", "b")
     F3 = ("a", "b", "c")
+    FD = ("a", "b", "d")     # "d" plays an overridden google/protobuf/descriptor.proto
     if pid == "C06":
         if tier == "quick":
             return [("f2_missing", F2, (1, 2), 0, 0, "ConfigsMissing", True),
-                    ("f3_sample", F3, (1, 2), 0, 12, "ConfigsNoFaultSmall", True)]
+                    ("f3_sample", F3, (1, 2), 0, 12, "ConfigsNoFaultSmall", True),
+                    ("fd_override", FD, (1, 2), 0, 0, "ConfigsOvr", True)]
         return [("f2_missing", F2, (1, 2, 3), 0, 0, "ConfigsMissing", True),
                 ("f3_all_p1", F3, (1,), 0, 0, "ConfigsNoFault", True),
                 ("f3_all_p2", F3, (2,), 0, 0, "ConfigsNoFaultSmall", True),
                 ("f3_all_p3", F3, (3,), 0, 0, "ConfigsNoFaultSmall", True),
-                ("f3_missing", F3, (1, 2), 0, 120, "ConfigsMissing", True)]
+                ("f3_missing", F3, (1, 2), 0, 120, "ConfigsMissing", True),
+                ("fd_override", FD, (1, 2, 3), 0, 0, "ConfigsOvr", True)]
     if pid == "C05":
         if tier == "quick":
             return [("f2_all", F2, (1, 2), 0, 0, "ConfigsNoFault", False),
-                    ("f3_sample", F3, (1, 3), 0, 8, "ConfigsNoFaultSmall", False)]
+                    ("f3_sample", F3, (1, 3), 0, 8, "ConfigsNoFaultSmall", False),
+                    ("fd_override", FD, (1, 2), 0, 0, "ConfigsOvr", False)]
         return [("f2_all", F2, (1, 2, 3), 0, 0, "ConfigsNoFault", False),
-                ("f3_sample", F3, (1, 2, 3), 0, 150, "ConfigsNoFault", False)]
+                ("f3_sample", F3, (1, 2, 3), 0, 150, "ConfigsNoFault", False),
+                ("fd_override", FD, (1, 2, 3), 0, 0, "ConfigsOvr", False)]
     if pid == "C07":
         if tier == "quick":
             return [("f2_faults_cancel", F2, (1, 2), 1, 0, "ConfigsFaults", True),
                     ("f3_faults", F3, (2,), 1, 3, "ConfigsFaults", False)]
         return [("f2_faults_cancel", F2, (1, 2, 3), 1, 0, "ConfigsFaults", True),
-                ("f3_faults_cancel", F3, (1, 2), 1, 40, "ConfigsFaults", True)]
+                ("f3_faults_cancel", F3, (1, 2), 1, 40, "ConfigsFaults", True),
+                ("fd_override_cancel", FD, (1, 2), 1, 0, "ConfigsOvr", True)]
     raise vf.MachineryError("unknown property " + pid)
 
 
@@ -337,7 +347,7 @@ def run(pid, tier, replay=None):
 def c05_runs(cases, tier, rng):
     groups = {}
     for ci, c in enumerate(cases):
-        key = (json.dumps(c["imports"], sort_keys=True), tuple(sorted(c["req"])))
+        key = (json.dumps(c["imports"], sort_keys=True), tuple(sorted(c["req"])), json.dumps(c["plan"], sort_keys=True), c.get("ovr", False))
         groups.setdefault(key, []).append(ci)
     runs = []
     rid = 1
@@ -353,12 +363,18 @@ def c05_runs(cases, tier, rng):
             variants.append((cis[0], c0["req"], p))
         for (ci, req, par) in variants:
             for s in seeds_for(nseeds):
-                for flavour in ({}, {"shared": True}, {"public": True}):
+                for flavour in ({}, {"shared": True}, {"public": True}, {"collide": True}):
                     if flavour and (s == 0 or (gi + par) % 3):  # flavours on a third of the matrix
                         continue
+                    if flavour.get("collide") and (len(req) < 2 or c0.get("ovr")):
+                        continue
+                    if flavour.get("public") and c0.get("ovr"):
+                        continue
                     r = {"id": rid, "case": ci, "group": gi, "imports": c0["imports"], "req": req, "plan": c0["plan"],
-                         "par": par, "seed": s, "trace": True}
+                         "par": par, "ovr": c0.get("ovr", False), "seed": s, "trace": True}
                     r.update(flavour)
+                    if r.get("collide"):
+                        r["trace"] = False   # link failures are outside CompileExec.tla (Symbols.tla covers them)
                     runs.append(r)
                     rid += 1
     return runs
@@ -368,12 +384,12 @@ def c05_compare(verdict, runs, res):
     groups = collections.defaultdict(list)
     for r in runs:
         if r["id"] in res:
-            groups[(r["group"], bool(r.get("public")))].append(r)
-    for (_g, _pub), rs in groups.items():
+            groups[(r["group"], bool(r.get("public")), bool(r.get("collide")))].append(r)
+    for _key, rs in groups.items():
         ref = res[rs[0]["id"]]
         for r in rs[1:]:
             o = res[r["id"]]
-            small = {k: r[k] for k in ("imports", "req", "plan", "par", "seed", "public", "shared") if k in r}
+            small = {k: r[k] for k in ("imports", "req", "plan", "par", "seed", "public", "shared", "ovr", "collide") if k in r}
             if (o["class"] == "ok") != (ref["class"] == "ok"):
                 verdict.disagree("nondeterministic:success", small, "class %s vs %s (par %s req %s)" % (o["class"], ref["class"], rs[0]["par"], rs[0]["req"]))
             elif o["class"] == "ok" and o["descs"] != ref["descs"]:
@@ -394,7 +410,7 @@ def c07_runs(cases, tier, rng):
         for k in ks:
             for s in (seeds_for(2) if k == 0 or tier == "thorough" else seeds_for(2)[1:]):
                 r = {"id": rid, "case": ci, "imports": c["imports"], "req": c["req"], "plan": c["plan"], "par": c["par"],
-                     "seed": s, "cancel": k, "trace": True}
+                     "ovr": c.get("ovr", False), "seed": s, "cancel": k, "trace": True}
                 runs.append(r)
                 rid += 1
     if tier == "quick" and len(runs) > 3000:
